@@ -202,6 +202,7 @@ def op (ss : Session) (toks : List String) : Option (String × Session) :=
   | ["stop"] => do let ss' ← applyAct ss .stop; some (reply "ok" ss')
   | ["stop", "ctx"] => do let ss' ← applyAct ss .stop; some (reply "ok" ss')
   | ["graceful"] => do let ss' ← applyAct ss .graceful; some (reply "ok" ss')
+  | ["top", "stop"] => do let ss' ← applyAct ss (.top .stop); some (reply "ok" ss')
   | ["top", "none"] => do let ss' ← applyAct ss (.top .none); some (reply "ok" ss')
   | ["top", "fb"] =>
     match s.pending with
